@@ -118,7 +118,7 @@ func checkC03(c *Ctx) {
 		"(C03.kw) every keyword token of the manual's table is consumed somewhere in the grammar; (C03.syn) synonymous spellings are interchangeable: Chinese/ASCII punctuation pairs map to one token type, 之/的 and 设为/= appear together in every consume set; " +
 		"(C03.linebreak) the line-continuation exception lists equal the manual's sets ({， 、 { 【 ： ？} before / {】 }} after a line end) and each hashmap entry resets the statement-complete flag like its siblings; " +
 		"(C03.indent) block membership is decided only by equality of indentation levels (never by an ordering comparison); (C03.sections) the section state of a program / exec block only moves forward (导入 -> statements; 输入 -> statements -> 拦截) and a body may end only in the statement or catch state. " +
-		"(C03.yield) the 得到 suffix has one owner per production: a production (or the production calling a chain helper) that consumes 得到 itself passes parseYieldResult=false to its inner calls; (C03.linebreak) additionally the line-break test compares the following token's start line with the current token's END line. The token's start / end line indices are FindLineIdx of its StartIdx / EndIdx; (C03.ident = C04.ident) where a name ends, including before every token that starts with '/'. NOT decided: equality of the tree with the BNF for all programs and layout-invariance as such (they quantify over all renderings); operator precedence is C01."
+		"(C03.yield) the 得到 suffix has one owner per production: a production (or the production calling a chain helper) that consumes 得到 itself passes parseYieldResult=false to its inner calls; (C03.linebreak) additionally the line-break test compares the following token's start line with the current token's END line. The token's start / end line indices are FindLineIdx of its StartIdx / EndIdx; (C03.ident = C04.ident) where a name ends, including before every token that starts with '/'. NOT decided: equality of the tree with the BNF for all programs and layout-invariance as such (they quantify over all renderings); operator precedence is C01. (C03.spaces) the space predicate accepts exactly the characters of the table of spaces (evaluated for every entry and for probes outside); (C03.prec, C03.assoc = C01.prec, C01.assoc)."
 	R.Assumptions = []string{"the required-field table in c03.go lists the fields pkg/exec dereferences without a nil test (reviewed)", "tables/keywords.json"}
 	u := c.Core()
 	u.buildSSA()
@@ -286,6 +286,63 @@ func checkC03(c *Ctx) {
 
 	// the same tree whatever the spacing: where a name ends and the next token begins (rules of C04.ident)
 	borrowRule(c, "C04", "C04.ident", "C03.ident")
+	// operator precedence and associativity are clauses of this property too (decided by C01's rules)
+	borrowRule(c, "C01", "C01.prec", "C03.prec")
+	borrowRule(c, "C01", "C01.assoc", "C03.assoc")
+
+	// ---- C03.spaces: optional spaces are layout only - the space predicate accepts every character of the table of
+	// spaces and nothing else (evaluated on the function body for each table entry and for representatives outside)
+	if fd, sp := u.funcDecl("pkg/syntax", "IsWhiteSpace"); fd != nil {
+		sinfo := sp.TypesInfo
+		var table []int64
+		// the table: the package-level list of constants the predicate consults (ranged over or handed to a helper)
+		ast.Inspect(fd.Body, func(n ast.Node) bool {
+			if id, ok := n.(*ast.Ident); ok && table == nil {
+				if v, isVar := sinfo.Uses[id].(*types.Var); isVar && v.Parent() == sp.Types.Scope() {
+					if l, ok := newPE(u, sinfo, fd).constList(id); ok && len(l) >= 4 {
+						table = l
+					}
+				}
+			}
+			return true
+		})
+		var chObj types.Object
+		if len(fd.Type.Params.List) == 1 && len(fd.Type.Params.List[0].Names) == 1 {
+			chObj = sinfo.Defs[fd.Type.Params.List[0].Names[0]]
+		}
+		if len(table) < 4 || chObj == nil {
+			R.undecided("C03.spaces", "pkg/syntax.IsWhiteSpace", u.pos(fd.Pos()), "the table of spaces the predicate scans was not found")
+		} else {
+			inTable := map[int64]bool{}
+			for _, t := range table {
+				inTable[t] = true
+			}
+			probes := append([]int64{}, table...)
+			for _, r := range []int64{'a', '0', '中', '\n', '\r', 0, '+', 0x3001, 0x2060, 0x1FFF, 0x7F, 0x85, 0xFEFF} {
+				if !inTable[r] {
+					probes = append(probes, r)
+				}
+			}
+			bad := ""
+			for _, ch := range probes {
+				pe := newPE(u, sinfo, fd)
+				st := newState()
+				st.env[chObj] = intVal(ch)
+				outs := pe.exec(st, fd.Body.List)
+				if pe.failed != "" || len(outs) != 1 || outs[0].Kind != "return" || len(outs[0].RetV) != 1 || outs[0].RetV[0].K != vBool {
+					bad = fmt.Sprintf("U+%04X: answer not extractable %s", ch, pe.failed)
+					break
+				}
+				if outs[0].RetV[0].B != inTable[ch] {
+					bad = fmt.Sprintf("U+%04X: answers %v, the table of spaces says %v", ch, outs[0].RetV[0].B, inTable[ch])
+					break
+				}
+			}
+			R.check(bad == "", "C03.spaces", "pkg/syntax.IsWhiteSpace", u.pos(fd.Pos()), fmt.Sprintf("accepts exactly the %d characters of the table of spaces (%d probes)", len(table), len(probes)), "the space predicate disagrees with the table of spaces - "+bad+": a program that differs only in the kind of space between tokens no longer parses to the same tree")
+		}
+	} else {
+		R.lost("C03.spaces", "pkg/syntax.IsWhiteSpace")
+	}
 
 	// ---- C03.syn
 	pe := newPE(u, info, nil)
